@@ -286,7 +286,11 @@ func Countersign0(rand io.Reader, signer Signer, parent any, external []byte) ([
 	if err != nil {
 		return nil, err
 	}
-	return signer.Sign(rand, toBeSigned)
+	sig, err := signer.Sign(rand, toBeSigned)
+	if err != nil {
+		return nil, err
+	}
+	return sig, nil
 }
 
 // VerifyCountersign0 verifies an abbreviated signature over a parent message
